@@ -123,6 +123,9 @@ class FCFG(CFG):
         # Processed[i] contains all production rule that are currently working until i.
         processed = StateProcessed(len(word) + 1)
         gamma = Variable("Gamma")
+        while gamma in self.variables:
+            # The dummy starting variable must not be one of the grammar
+            gamma = Variable(str(gamma.value) + "#")
         dummy_rule = FeatureProduction(gamma, [self.start_symbol], FeatureStructure(), [FeatureStructure()])
         # State = (rule, [begin, end, dot position, diag)
         first_state = State(dummy_rule, (0, 0, 0), dummy_rule.features, ParseTree("BEGIN"))
